@@ -10,17 +10,20 @@ class _Fn:
         self.base, self.posw, self.kww = base, posw, kww
         self.calls = []          # call log (laziness / once-only observations)
 
-    def __call__(self, *args, k1=None, k2=None):
+    def __call__(*pos, **kw):     # (no named parameters: every keyword is the caller's)
+        self, args = pos[0], pos[1:]
         if len(args) > 3:
             raise TypeError("too many positional arguments")
-        self.calls.append((args, k1, k2))
+        for name in kw:
+            if name not in self.kww:
+                raise TypeError(f"unexpected keyword argument {name!r}")
+        self.calls.append((args, kw.get("k1"), kw.get("k2")))
         res = self.base
         for w, a in zip(self.posw, args):
             res = res + w * a
-        if k1 is not None:
-            res = res + self.kww["k1"] * k1
-        if k2 is not None:
-            res = res + self.kww["k2"] * k2
+        for name in self.kww:         # fixed order, not the caller's
+            if kw.get(name) is not None:
+                res = res + self.kww[name] * kw[name]
         return res
 
 
@@ -35,8 +38,10 @@ class _Obj:
 from fractions import Fraction  # noqa: E402
 
 FUNCS = {
-    "f": _Fn("f", 1, (2, 3, 5), {"k1": 7, "k2": 11}),
-    "g": _Fn("g", 2, (3, 5, 7), {"k1": 13, "k2": 17}),
+    "f": _Fn("f", 1, (2, 3, 5), {"k1": 7, "k2": 11, "expr": 19, "self": 23, "args": 29, "kwargs": 31,
+                                 "expression": 37, "context": 41}),
+    "g": _Fn("g", 2, (3, 5, 7), {"k1": 13, "k2": 17, "expr": 20, "self": 24, "args": 30, "kwargs": 32,
+                                 "expression": 38, "context": 42}),
 }
 OBJS = {
     "o1": _Obj("o1", p=5, q=Fraction(1, 2), aggregate=7, name=3),
